@@ -68,6 +68,17 @@ def accept_obligations(ex, it, root, ref_fuel=2500):
     else:
         ex.check(True, "E2.type-ok")
     ex.check(T.term_eq(ex, e, root, SAME), "E3.elaboration-rewrites-the-program", info=info)
+    # the checker's own conversion must agree: the reported type unifies with the expected one
+    # (this runs the real normaliser on types that mention definition groups)
+    if same:
+        try:
+            wn = rc.whnf(tref, [])     # the expected type in weak-head normal form (reference)
+            u = it.truth(it.call("unifier", "unify", [ty, wn, VecV()]))
+            ex.check(u, "E4.reported-type-does-not-unify-with-expected", info=info)
+        except FuelExhausted:
+            ex.count("fuel")
+        except RefUnknown:
+            pass
     if len(ex.samples) < 2 and ex.stats.paths % 31 == 0:
         m = ex.path_model()
         if m is not None:
@@ -122,6 +133,11 @@ def confirm(H, label, case):
         return False, "rejected natively"
     if label.startswith("E0"):
         return False, "%s is accepted natively" % shown
+    if label.startswith("E4"):
+        exp = T.Concretizer(cx, empty_model()).term(verdict[2].whnf(verdict[1], []))
+        u = replay.call({"op": "unify", "a": r["ok"]["type"], "b": exp, "defs_ctx": [], "cells": r["cells"]}, timeout=20)
+        bad = ("panic" in u) or ("crash" in u) or ("timeout" in u) or (u.get("result") is False)
+        return bad, "%s: compiled unify(reported type %s, expected type %s) = %s" % (shown, r["ok"]["type_shown"], T.show(exp), u.get("result", u.get("panic", u)))
     ty = T.from_json(r["ok"]["type"], r["cells"], cell_objs)
     if "does-not-normalise" in label:
         # ask the compiled code to compare the reported type with the expected one
